@@ -31,6 +31,9 @@ structure Eng where
   invalid : Bool := false
   /-- `prepare` already ran once on this engine object -/
   prepared : Bool := false
+  /-- the engine was given its state explicitly (`WithState`): `ensureState` takes its
+  existing-state branch already on the first `prepare` -/
+  explicitState : Bool := false
 
 /-- what a persister stores: the exported fields of State and Cache -/
 structure Snap where
@@ -230,7 +233,7 @@ def engInit (env : Env) (cfg : Cfg) (input : Bytes) : EM Bool := do
   if e.initd then pure true else do
   -- `prepare` runs again on every Exec until the engine is initialised: `ensureState` (now on an
   -- existing state) and `setupVm` (a brand-new Vm, page, menu and sizer)
-  if e.prepared then
+  if e.prepared || e.explicitState then
     modify fun e => { e with vm := newVmSt cfg (loadedState env cfg e.vm.st) e.vm.ca e.vm.ghost }
   modify fun e => { e with prepared := true }
   let e ← get
